@@ -300,27 +300,78 @@ def _exposed(o):
     return bool(getattr(o, 'exposed', False))
 
 
-def ref_candidates(root, path_info):
-    """The acceptable (callable, positional args) choices for this path, [] = must be 404.
+def _restore(s):
+    return s.replace('%2F', '/')
+
+
+def ref_trail(root, segs, log):
+    """The objects the path leads through, written from the statement: [(object, segments matched so far)].
+
+    A segment is matched by the attribute of that (translated) name; where there is none and the recording
+    wrapper saw a `_cp_dispatch` call on that very object with exactly the segments that are left, the
+    dispatcher matched whatever it removed from the list (at least one segment: a dispatcher that leaves the
+    list alone has used the first one, the documented `return getattr(self, vpath[0], None)` idiom) and
+    handed over to the object it returned.  Returns (chain, wellformed, note): `wellformed` is False once a
+    dispatcher did anything but remove segments from the front; `note` is None, 'raised', 'added' or 'lost'
+    (the recorded calls do not fit this reading of the path: the reference is not used then)."""
+    chain = [(root, 0)]
+    rest = list(segs)
+    total = len(segs)
+    node = root
+    k = 0
+    wf = True
+    while rest:
+        sub = getattr(node, rest[0].translate(_PUNCT), None)
+        if sub is not None:
+            rest.pop(0)
+            node = sub
+        else:
+            ent = log[k] if k < len(log) else None
+            d = getattr(node, '_cp_dispatch', None)
+            if ent is not None and d is not None and getattr(d, '__func__', d) is ent['fn'] and \
+                    getattr(d, '__self__', None) is ent['self'] and ent['before'] == rest:
+                k += 1
+                if ent['raised']:
+                    return chain, wf, 'raised'
+                after = ent['after']
+                if len(after) > len(rest):
+                    return chain, wf, 'added'
+                if after != rest[len(rest) - len(after):]:
+                    wf = False
+                if len(after) == len(rest):
+                    after = after[1:]
+                rest = list(after)
+                node = ent['ret']
+            else:
+                rest.pop(0)
+                node = None
+        chain.append((node, total - len(rest)))
+        if node is None:
+            break
+    if k != len(log):
+        return chain, wf, 'lost'
+    if node is not None and not rest:
+        idx = getattr(node, 'index', None)
+        if idx is not None:
+            chain.append((idx, total))
+    return chain, wf, None
+
+
+def ref_candidates(root, path_info, log=()):
+    """The acceptable (callable, positional args) choices for this path, [] = must be 404; None = the
+    reference has nothing to say (a dispatcher raised / added segments).
 
     Deepest object matching the longest prefix of the path; `index` for an exact match; at each depth
-    the object's exposed `default` or the exposed object itself, with the unmatched segments."""
+    the object's exposed `default` or the exposed object itself, with the unmatched segments (args None:
+    any suffix, when a dispatcher rewrote the list instead of removing from its front)."""
     segs = [s for s in path_info.split('/') if s]
-    chain = [root]
-    for s in segs:
-        nxt = getattr(chain[-1], s.translate(_PUNCT), None)
-        if nxt is None:
-            break
-        chain.append(nxt)
-    rests = [segs[d:] for d in range(len(chain))]
-    if len(chain) == len(segs) + 1:
-        idx = getattr(chain[-1], 'index', None)
-        if idx is not None:
-            chain.append(idx)
-            rests.append([])
-    for depth in range(len(chain) - 1, -1, -1):
-        o = chain[depth]
-        args = [s.replace('%2F', '/') for s in rests[depth]]
+    chain, wf, note = ref_trail(root, segs, list(log))
+    if note is not None:
+        return None, note
+    for o, consumed in reversed(chain):
+        if o is None:
+            continue
+        args = [_restore(s) for s in segs[consumed:]] if wf else None
         alts = []
         d = getattr(o, 'default', None)
         if d is not None and _exposed(d):
@@ -328,8 +379,39 @@ def ref_candidates(root, path_info):
         if _exposed(o):
             alts.append((o, args))
         if alts:
-            return alts
-    return []
+            return alts, None
+    return [], None
+
+
+def expected_kwargs(case, log):
+    """Keyword arguments the statement lets the handler see: query and body parameters plus what `popargs`
+    bound (the popped segments under the declared names, in order).  (dict, names to leave alone, problems)"""
+    import urllib.parse
+    kw = {}
+    for k, v in urllib.parse.parse_qsl(case.get('query') or '', keep_blank_values=True):
+        kw[k] = v
+    if case.get('body'):
+        for k, v in urllib.parse.parse_qsl(case['body'], keep_blank_values=True):
+            kw[k] = v
+    skip, bad = set(), []
+    nodes = case['tree']['nodes']
+    for ent in log:
+        d = nodes[ent['node']].get('disp') or {}
+        if not d.get('t', '').startswith('popargs') or ent['before'] is None or ent['raised']:
+            continue
+        names = list(d['names']) if d.get('names') is not None else ['p%d' % i for i in range(d.get('n', 0))]
+        bound = dict(zip(names, ent['before']))
+        h = d.get('h')
+        if d['t'] == 'popargs_attr' and h is not None and h[0] == 'fn':
+            if ent['hkw'] != bound:
+                bad.append(('popargs handler function of node %d got %s for the segments %s, names %s'
+                            % (ent['node'], ent['hkw'], ent['before'], names), 'popargs_handler_kwargs'))
+            continue
+        for k, v in bound.items():
+            if k in kw and kw[k] != v:
+                skip.add(k)
+            kw[k] = v
+    return kw, skip, bad
 
 
 def expose_oracle(built):
@@ -387,9 +469,24 @@ def oracle(built, case, obs):
         if len(args) > len(restored):
             bad.append(('handler %s got more args %s than path segments %s' % (pid, args, restored),
                         'args_not_suffix'))
-    if has_disp:
+    log = obs.get('disp_log') or []
+    if has_disp and not getattr(built, 'instrument', False):
+        return bad         # nothing recorded what the dispatchers consumed: only the clauses above
+    # (3) keyword arguments: query/body parameters and what popargs bound, nothing else
+    want, skip, kbad = expected_kwargs(case, log)
+    bad.extend(kbad)
+    if len(ran) == 1 and obs.get('kwargs'):
+        got = obs['kwargs'][0]
+        if {k: v for k, v in got.items() if k not in skip} != {k: v for k, v in want.items() if k not in skip}:
+            bad.append(('handler %s got keyword arguments %s; query/body parameters and popargs bindings are %s'
+                        % (ran[0][0], got, want), 'wrong_kwargs'))
+    alts, note = ref_candidates(built.root, pi, log)
+    if alts is None:
+        obs['oracle_note'] = note
         return bad
-    alts = ref_candidates(built.root, pi)
+
+    def args_ok(got, want):
+        return want is None or got == want
     if kind == 'D':
         if not alts:
             if ran or obs['status'] != 404:
@@ -404,11 +501,16 @@ def oracle(built, case, obs):
             elif pid is None:
                 ok = ok or not ran
             else:
-                ok = ok or (ran == [[pid, args]])
+                ok = ok or (len(ran) == 1 and ran[0][0] == pid and args_ok(ran[0][1], args))
         if not ok:
             want = [(_pid_of(o) or repr(o), a) for o, a in alts]
-            bad.append(('for %r the most specific exposed candidate is %s but ran %s (status %s)'
-                        % (pi, want, ran, obs['status']), 'wrong_handler'))
+            if len(ran) == 1 and any(_pid_of(o) == ran[0][0] for o, a in alts):
+                bad.append(('for %r the handler %s must get the unmatched segments %s but got %s'
+                            % (pi, ran[0][0], [a for o, a in alts if _pid_of(o) == ran[0][0]][0], ran[0][1]),
+                            'wrong_args'))
+            else:
+                bad.append(('for %r the most specific exposed candidate is %s but ran %s (status %s)'
+                            % (pi, want, ran, obs['status']), 'wrong_handler'))
         return bad
     # method dispatcher
     if not alts:
@@ -436,7 +538,8 @@ def oracle(built, case, obs):
             if pid is None:
                 ok = ok or not ran
             else:
-                ok = ok or (ran == [[pid, args]] and obs['allow'] == ', '.join(allow))
+                ok = ok or (len(ran) == 1 and ran[0][0] == pid and args_ok(ran[0][1], args) and
+                            obs['allow'] == ', '.join(allow))
     if not ok:
         bad.append(('method dispatch of %s %r: expected one of %s, got ran=%s status=%s allow=%r'
                     % (meth, pi, wants, ran, obs['status'], obs['allow']), 'wrong_method_dispatch'))
@@ -581,22 +684,48 @@ def shrink_generic(case, variants, fails, budget=500):
     return case
 
 
-def shrink_case(case, sig):
+def case_messages(c, want_purity=True):
+    """Run one case from scratch: all (what, signature) the oracle reports for it.  A case may carry a
+    `history` (requests served by the same application before it): then the request is also asked of a freshly
+    built tree and the two answers are compared (the choice is a function of (tree, path, method))."""
+    hist = [tuple(h) for h in c.get('history') or []]
+    built, view, obs, lines, again = run_tree(c['tree'], c['kind'], hist + [_case_req(c)],
+                                              want_purity and not hist, not c.get('plain'))
+    msgs = oracle(built, c, obs[-1]) + expose_oracle(built)
+    if again is not None and strip_obs(again[-1]) != strip_obs(obs[-1]):
+        msgs.append(('the same request answered differently in a different history: %s vs %s'
+                     % (strip_obs(obs[-1]), strip_obs(again[-1])), 'not_pure'))
+    if hist:
+        b2, v2, fresh, l2, a2 = run_tree(c['tree'], c['kind'], [_case_req(c)], False, not c.get('plain'))
+        if strip_obs(fresh[0]) != strip_obs(obs[-1]):
+            msgs.append(('the same request answered differently after the history %s: %s, on a fresh application %s'
+                         % (hist, strip_obs(obs[-1]), strip_obs(fresh[0])), 'not_pure'))
+    return msgs
+
+
+def shrink_case(case, sig, history=None):
     def variants(c):
         for p in path_variants(c['path']):
             yield dict(c, path=p)
+        for f in ('query', 'body'):
+            if c.get(f):
+                yield {k: v for k, v in c.items() if k != f}
+        h = c.get('history') or []
+        for i in range(len(h)):
+            yield dict(c, history=h[:i] + h[i + 1:])
         for t in tree_variants(c['tree']):
             yield dict(c, tree=t)
 
     def messages(c):
-        built, view, obs, lines, again = run_tree(c['tree'], c['kind'], [(c['path'], c['method'])], sig == 'not_pure')
-        msgs = oracle(built, c, obs[0]) + expose_oracle(built)
-        if again is not None and strip_obs(again[0]) != strip_obs(obs[0]):
-            msgs.append(('the same request answered differently in a different history', 'not_pure'))
-        return [w for w, s2 in msgs if s2 == sig]
+        return [w for w, s2 in case_messages(c, sig == 'not_pure') if s2 == sig]
 
     def fails(c):
         return bool(messages(c))
+    if history and not fails(case):
+        # the failure needs what the application served before: keep that in the case
+        case = dict(case, history=[list(h) for h in history])
+        if not fails(case):
+            return case, None
     small = shrink_generic(case, variants, fails)
     try:
         g = dict(small, tree=gc_tree(small['tree']))
@@ -608,40 +737,78 @@ def shrink_case(case, sig):
     return small, (messages(small) or [None])[0]
 
 
-def report_failure(ctx, case, what, sig, shrinker):
-    """ctx.oracle_fail with the first failure of each signature shrunk (the others are reported as found)."""
+def report_failure(ctx, case, what, sig, shrinker, history=None):
+    """ctx.oracle_fail with the first failure of each signature shrunk (the others are reported as found).
+    `history`: what the same application served before this request (kept in the replay case when the failure
+    does not show without it)."""
     done = getattr(ctx, '_shrunk_sigs', None)
     if done is None:
         done = ctx._shrunk_sigs = set()
     if sig not in done and ctx.match_known(sig) is None and len(done) < 4:
         done.add(sig)
         try:
-            small, what_small = shrinker(case, sig)
+            small, what_small = shrinker(case, sig, history) if history is not None else shrinker(case, sig)
             if small != case and what_small:
                 what = what_small + '  [shrunk]'
                 case = dict(small, shrunk_from=case)
         except Exception as e:     # shrinking is a convenience, never a reason to fail
             ctx.note('shrinking failed: %r' % (e,))
+    elif history:
+        case = dict(case, history=[list(h) for h in history])
     ctx.oracle_fail(case, what, sig)
 
 
 # ----------------------------------------------------------------------------------------------
-def run_tree(spec, kind, reqs, purity=False):
+def _rq(r):
+    """(path, method[, query[, body]]) -> (path, method, query, body)"""
+    r = tuple(r)
+    return r + ('', None)[len(r) - 2:] if len(r) < 4 else r[:4]
+
+
+def _case_req(c):
+    return (c['path'], c['method'], c.get('query') or '', c.get('body'))
+
+
+def _mk_case(spec, kind, r, instrument=True):
+    p, m, q, b = _rq(r)
+    case = {'tree': spec, 'kind': kind, 'path': p, 'method': m}
+    if q:
+        case['query'] = q
+    if b:
+        case['body'] = b
+    if not instrument:
+        case['plain'] = True
+    return case
+
+
+def has_mut(spec):
+    return any((nd.get('disp') or {}).get('mut') for nd in spec['nodes'])
+
+
+def run_tree(spec, kind, reqs, purity=False, instrument=True):
     """Build the tree, run the requests; returns (built, view, [obs], [line])."""
-    built = T.Built(spec)
-    paths = [p for p, m in reqs]
+    built = T.Built(spec, instrument=instrument)
+    reqs = [_rq(r) for r in reqs]
+    paths = [r[0] for r in reqs]
     runner = T.Runner(built, kind)
-    obs = [runner.get(p, m) for p, m in reqs]
+
+    def one(r):
+        p, m, q, b = r
+        return runner.get(p, m, query=q, req_body=b.encode('utf-8') if b else None)
+    obs = [one(r) for r in reqs]
     again = None
     if purity:
-        again = [runner.get(p, m) for p, m in reversed(reqs)][::-1]
+        again = [one(r) for r in reversed(reqs)][::-1]
     seen = [o['path_info'] or p for o, p in zip(obs, paths)]
     maxsegs = max([len([s for s in p.split('/') if s]) for p in seen] + [0])
     added = [a for nd in spec['nodes'] if nd.get('disp') for a in nd['disp'].get('add', [])]
-    view = T.View(built, T.alphabet_for(seen, [m for p, m in reqs], extra=added), maxsegs + 4)
+    if has_mut(spec):
+        # names a rewriting dispatcher can put into the list
+        added += ['a', 'b'] + [s.lower() for p in seen for s in p.split('/') if s]
+    view = T.View(built, T.alphabet_for(seen, [r[1] for r in reqs], extra=added), maxsegs + 4)
     root, na, nodes = view.fields()
     lines = []
-    for o, (p, m) in zip(obs, reqs):
+    for o, (p, m, q, b) in zip(obs, reqs):
         pi = o['path_info'] if o['path_info'] is not None else p
         lines.append(' '.join([kind, T.enc_text(m.upper()), root, na, nodes, '-', T.enc_text(pi)]))
     return built, view, obs, lines, again
@@ -653,41 +820,74 @@ def strip_obs(o):
         d['kwargs'] = o['kwargs']
     if o.get('hang'):
         d['hang'] = True
+    if o.get('disp_log'):
+        # what the dispatchers consumed (segments only: objects have no stable name)
+        d['dispatchers'] = [[e['node'], e['before'], e['after'], e['raised']] for e in o['disp_log']]
     return d
 
 
 def check_batch(ctx, batch, compare_model=True):
-    """batch: list of (spec, kind, [(path, method)…], purity)."""
+    """batch: list of (spec, kind, [(path, method[, query, body])…], purity[, instrument])."""
     pending = []
-    for spec, kind, reqs, purity in batch:
-        built, view, obs, lines, again = run_tree(spec, kind, reqs, purity)
+    for item in batch:
+        spec, kind, reqs, purity = item[:4]
+        instrument = item[4] if len(item) > 4 else True
+        reqs = [_rq(r) for r in reqs]
+        built, view, obs, lines, again = run_tree(spec, kind, reqs, purity, instrument)
         ndisp = sum(1 for nd in spec['nodes'] if nd.get('disp') is not None)
+        mut = has_mut(spec)
         for what, sig in expose_oracle(built):
-            report_failure(ctx, {'tree': spec, 'kind': kind, 'path': reqs[0][0], 'method': reqs[0][1]}, what, sig,
-                           shrink_case)
+            report_failure(ctx, _mk_case(spec, kind, reqs[0], instrument), what, sig, shrink_case)
         if built.exposed_by_decorator:
             ctx.count('expose_decorator_checked', len(built.exposed_by_decorator))
-        for k, ((p, m), o) in enumerate(zip(reqs, obs)):
-            case = {'tree': spec, 'kind': kind, 'path': p, 'method': m}
+        for k, (r, o) in enumerate(zip(reqs, obs)):
+            p, m, q, b = r
+            case = _mk_case(spec, kind, r, instrument)
             nseg = len([s for s in (o['path_info'] or p).split('/') if s])
-            ctx.case(case, nontrivial=nseg > 0, key=json.dumps([spec, kind, p, m], sort_keys=True))
+            ctx.case(case, nontrivial=nseg > 0, key=json.dumps([spec, kind, p, m, q, b], sort_keys=True))
             ctx.count('kind:' + kind)
-            ctx.count('segments:%d' % min(nseg, 5))
+            ctx.count('segments:%d' % min(nseg, 7))
             ctx.count('status:%d' % o['status'])
-            ctx.count('dispatchers_in_tree:%d' % min(ndisp, 3))
+            ctx.count('dispatchers_in_tree:%d' % min(ndisp, 4))
             ctx.count('nodes:%d' % min(10 * (len(spec['nodes']) // 10), 30))
+            if q or b:
+                ctx.count('with_query_or_body')
+            if p.endswith('/') and nseg:
+                ctx.count('trailing_slash')
+            if '%2F' in p:
+                ctx.count('path_with_%2F')
+            dl = o.get('disp_log') or []
+            if ndisp:
+                ctx.count('dispatcher_calls:%d' % min(len(dl), 4))
+            for e in dl:
+                if e['before'] is not None and e['after'] is not None and not e['raised']:
+                    n = len(e['before']) - len(e['after'])
+                    wf = e['after'] == e['before'][len(e['before']) - len(e['after']):] if n >= 0 else False
+                    ctx.count('dispatcher_consumed:%s' % ('added' if n < 0 else min(n, 4)))
+                    if not wf and n >= 0:
+                        ctx.count('dispatcher_rewrote_vpath')
+                elif e['raised']:
+                    ctx.count('dispatcher_raised')
             if o['ran']:
                 ctx.count('args:%d' % min(len(o['ran'][0][1]), 4))
-                ctx.count('kwargs_from_popargs:%d' % min(len((o.get('kwargs') or [{}])[0]), 3))
+                ctx.count('kwargs:%d' % min(len((o.get('kwargs') or [{}])[0]), 4))
                 ctx.count('ran:' + ('call' if o['ran'][0][0].endswith('()') else
                                     o['ran'][0][0].split('.', 1)[1] if o['ran'][0][0].split('.', 1)[1] in
                                     ('index', 'default') + tuple(VERBS) else 'method'))
+                if dl:
+                    ctx.count('ran_after_dispatcher:%s' % ('default' if o['ran'][0][0].endswith('.default') else
+                                                           'index' if o['ran'][0][0].endswith('.index') else 'other')
+                              + ('+args' if o['ran'][0][1] else ''))
             for what, sig in oracle(built, case, o):
-                report_failure(ctx, case, what, sig, shrink_case)
+                report_failure(ctx, case, what, sig, shrink_case, reqs[:k])
+            if ndisp and instrument:
+                ctx.count('oracle_reference:%s' % (o.get('oracle_note') or 'full'))
             if again is not None and strip_obs(again[k]) != strip_obs(o):
-                ctx.oracle_fail(case, 'the same request answered differently in a different history: %s vs %s'
-                                % (strip_obs(o), strip_obs(again[k])), 'not_pure')
-            pending.append((case, view, kind, strip_obs(o), lines[k]))
+                report_failure(ctx, case, 'the same request answered differently in a different history: %s vs %s'
+                               % (strip_obs(o), strip_obs(again[k])), 'not_pure', shrink_case,
+                               reqs + reqs[k + 1:][::-1])
+            if not mut:
+                pending.append((case, view, kind, strip_obs(o), lines[k]))
     if not compare_model:
         return
     out = ctx.model([p[4] for p in pending])
@@ -698,12 +898,190 @@ def check_batch(ctx, batch, compare_model=True):
         if 'unknownDispatch' in mline or 'outOfFuel' in mline:
             raise common.HarnessError('model artefact %s for case %s' % (mline, json.dumps(case)[:400]))
         exp = model_expectation(mline, view, kind)
+        if 'kwargs' in exp:
+            # request.params starts from the query string and ends with the body parameters (Python side:
+            # urllib), the model contributes what popargs put in between
+            qb, _, _ = expected_kwargs(dict(case, tree={'nodes': []}), [])
+            exp['kwargs'] = dict(qb, **exp['kwargs'])
         if mline.startswith('E:'):
             ctx.count('model:' + mline.split(' ')[0])
         diffs = compare(exp, o, kind)
         if diffs:
             ctx.disagree(case, o, {'model_line': mline, 'expected': exp},
                          'dispatch observables differ in %s' % diffs)
+
+
+QUERIES = ['', '', '', 'q=1', 'q=1&r=x%2Fy', 'r=', 'q=a+b&q2=%C3%A9', 'index=1']
+BODIES = [None, None, 'bq=1', 'bq=1&br=x%2Fy']
+# what a popped / left-over segment looks like
+VALUES = ['2009', '12', 'x', 'y', 'x%2Fy', '%2F', 'a.b', 'A', 'café', 'index', 'default', 'a', 'b', 'zz', 'p.q-r',
+          'a%2fb', '0']
+
+
+def _rich_req(rng, kind, path):
+    m = rng.choice(REQ_METHODS) if kind == 'M' else rng.choice(['GET', 'GET', 'GET', 'HEAD', 'POST'])
+    q = rng.choice(QUERIES)
+    b = rng.choice(BODIES) if m in ('POST', 'PUT') else None
+    return (path, m, q, b)
+
+
+def gen_levels(rng, kind='D'):
+    """A spine of 2..4 levels; every level owns a dispatcher (`cherrypy.popargs` in its forms, nested through
+    handler=, or a hand-written `_cp_dispatch`) that consumes 0, 1, 2 or 3 segments and hands over to the next
+    level, itself, another object or None; `index` / `default` / the exposed mark / aliases at every level."""
+    nodes = []
+
+    def plain(nocall=False, leaf=False):
+        nd = {'exp': None, 'call': None, 'falsy': False, 'meth': [], 'vals': [], 'kids': [], 'disp': None,
+              'conf': None}
+        i = len(nodes)
+        nodes.append(nd)
+        if kind == 'M':
+            nd['exp'] = _mark(rng, 0.8)
+            for v in VERBS:
+                if rng.random() < 0.5:
+                    nd['meth'].append([v, {'exp': _mark(rng, 0.3)}])
+        else:
+            if not nocall and rng.random() < 0.3:
+                nd['call'] = {}
+            nd['exp'] = _mark(rng, 0.6 if nd['call'] is not None else 0.04)
+        if rng.random() < 0.6:
+            nd['meth'].append(['index', {'exp': _mark(rng, 0.8)}])
+        if rng.random() < (0.75 if not leaf else 0.5):
+            nd['meth'].append(['default', {'exp': _mark(rng, 0.8)}])
+        used = {n for n, _ in nd['meth']}
+        if rng.random() < 0.5:
+            name = rng.choice(['a', 'b', 'a_b', 'x_y', 'c'])
+            m = {'exp': _mark(rng, 0.7)}
+            if rng.random() < 0.3:
+                m['alias'] = rng.choice(['al', 'al.ias', ['p.q', 'al']])
+                m['xform'] = rng.choice(['kw', 'pos', 'func'])
+            if name not in used:
+                nd['meth'].append([name, m])
+        return i
+
+    depth = rng.choice([2, 2, 3, 3, 4])
+    spine = [plain(nocall=True) for _ in range(depth)]
+    for lv, i in enumerate(spine):
+        nd = nodes[i]
+        nxt = spine[lv + 1] if lv + 1 < depth else None
+        used = {n for n, _ in nd['meth']}
+        # ordinary children: the next level (so that attribute steps and dispatcher steps mix) and a leaf
+        if nxt is not None and rng.random() < 0.7:
+            name = rng.choice([n for n in ['n', 'a', 'b', 'a_b', 'x_y'] if n not in used])
+            used.add(name)
+            nd['kids'].append([name, nxt])
+        if rng.random() < 0.5:
+            name = rng.choice([n for n in ['leaf', 'a', 'c', 'a_2Fb'] if n not in used] or ['leaf2'])
+            used.add(name)
+            nd['kids'].append([name, plain(leaf=True)])
+        names = ['y%d_%d' % (lv, k) for k in range(rng.choice([0, 1, 1, 2, 2, 2, 3]))]
+        target = rng.choice([nxt, nxt, nxt, nxt, i, rng.choice(spine), None]) if nxt is not None else \
+            rng.choice([i, None, plain(nocall=True, leaf=True), rng.choice(spine)])
+        r = rng.random()
+        if lv > 0 and r < 0.12:
+            continue                      # a level without dispatcher
+        if r < 0.25:
+            nd['disp'] = {'t': 'popargs_cls', 'names': names}
+        elif r < 0.6:
+            hk = rng.choice(['none', 'obj', 'obj', 'fn', 'fn', 'fn_none'])
+            if hk == 'obj' and (target is None or nodes[target]['call'] is not None):
+                hk = 'fn'
+            h = {'none': None, 'obj': ['obj', target], 'fn': ['fn', target], 'fn_none': ['fn', None]}[hk]
+            nd['disp'] = {'t': 'popargs_attr', 'names': names, 'h': h}
+        else:
+            ret = rng.choice(['fixed', 'fixed', 'fixed', 'self', 'peek', 'popget'])
+            if ret == 'fixed':
+                ret = ['fixed', target]
+            d = {'t': 'custom', 'pop': rng.choice([0, 1, 1, 2, 2, 3]), 'add': [], 'ret': ret}
+            ra = rng.random()
+            if ra < 0.05:
+                d['add'] = [rng.choice(['a', 'b'])]
+            elif ra < 0.14:
+                d['mut'] = rng.choice(['popback', 'lower', 'reverse', 'clear', 'rename0', 'rename1'])
+            if rng.random() < 0.04:
+                d['exp'] = rng.choice([True, 1, False])
+            nd['disp'] = d
+    return {'nodes': nodes}
+
+
+def _hop(rng, spec, cur):
+    """Roughly what the dispatcher of node `cur` does with the next segments: (segments to emit, next node or
+    None).  Only steers the path generator; never used to judge anything."""
+    nd = spec['nodes'][cur]
+    d = nd['disp']
+    kids = nd['kids']
+
+    def kidstep():
+        if kids and rng.random() < 0.8:
+            name, j = rng.choice(kids)
+            return [seg_variant(rng, name)], j
+        return [rng.choice(VALUES)], None
+    if d['t'] in ('popargs_cls', 'popargs_attr'):
+        n = len(d['names']) if d.get('names') is not None else d.get('n', 0)
+        segs = [rng.choice(VALUES) for _ in range(n)]
+        h = d.get('h')
+        if h is None:
+            s2, j = kidstep()
+            return segs + s2, j
+        if not segs:
+            segs = [rng.choice(VALUES)]
+        return segs, h[1]
+    if d['t'] == 'custom':
+        segs = [rng.choice(VALUES) for _ in range(d.get('pop', 0))]
+        ret = d['ret']
+        if ret in ('peek', 'popget'):
+            s2, j = kidstep()
+            return segs + s2, j
+        if not segs:
+            segs = [rng.choice(VALUES)]
+        return segs, (cur if ret == 'self' else ret[1])
+    return [rng.choice(VALUES)], None
+
+
+def gen_path_levels(rng, spec):
+    nodes = spec['nodes']
+    segs = []
+    cur = 0
+    for _ in range(rng.choice([1, 2, 2, 3, 3, 4])):
+        if cur is None or len(segs) > 7:
+            break
+        nd = nodes[cur]
+        r = rng.random()
+        attrs = [(n, j) for n, j in nd['kids']] + [(n, None) for n, _ in nd['meth'] if n not in VERBS]
+        for n, m in nd['meth']:
+            al = m.get('alias') or []
+            attrs += [(a, None) for a in ([al] if isinstance(al, str) else al)]
+        if nd.get('disp') is not None and r < 0.65:
+            s2, cur = _hop(rng, spec, cur)
+            segs += s2
+        elif attrs and r < 0.9:
+            name, cur = rng.choice(attrs)
+            segs.append(seg_variant(rng, name))
+        else:
+            break
+    # what is left over for a `default` (or nothing: `index`)
+    segs += [rng.choice(VALUES) for _ in range(rng.choice([0, 0, 1, 1, 2, 3]))]
+    path = '/' + '/'.join(segs)
+    r = rng.random()
+    if r < 0.3 and segs:
+        path += '/'
+    elif r < 0.36:
+        path += '//'
+    elif r < 0.4:
+        path = path.replace('/', '//', 1)
+    return path
+
+
+def gen_batch_levels(rng, n_trees, reqs_per_tree=10):
+    batch = []
+    for i in range(n_trees):
+        kind = 'M' if i % 6 == 5 else 'D'
+        spec = gen_levels(rng, kind)
+        reqs = [_rich_req(rng, kind, gen_path_levels(rng, spec)) for _ in range(reqs_per_tree)]
+        # every eighth tree runs without the recording wrappers (model comparison and the weak clauses only)
+        batch.append((spec, kind, reqs, i % 3 == 0, i % 8 != 7))
+    return batch
 
 
 def gen_batch(rng, n_trees, reqs_per_tree=8):
@@ -717,6 +1095,9 @@ def gen_batch(rng, n_trees, reqs_per_tree=8):
             p = gen_path(rng, spec)
             m = rng.choice(REQ_METHODS) if kind == 'M' else rng.choice(['GET', 'GET', 'GET', 'HEAD', 'POST'])
             reqs.append((p, m))
+        if i % 7 == 3:
+            reqs = [(p, m, rng.choice(QUERIES), rng.choice(BODIES) if m in ('POST', 'PUT') else None)
+                    for p, m in reqs]
         batch.append((spec, kind, reqs, i % 4 == 0))
     return batch
 
@@ -808,7 +1189,18 @@ def corpus_cases():
 
 
 def _case_batch(c):
-    return (c['tree'], c['kind'], [(c['path'], c['method'])], True)
+    return (c['tree'], c['kind'], [_case_req(c)], True, not c.get('plain'))
+
+
+def check_case(ctx, c):
+    """One stored case (corpus / replay), with its history when it has one."""
+    if c.get('history'):
+        for what, sig in case_messages(c):
+            ctx.oracle_fail(c, what, sig)
+        ctx.case(c, key=json.dumps(c, sort_keys=True))
+        ctx.count('case_with_history')
+        return
+    check_batch(ctx, [_case_batch(c)])
 
 
 def _worker(args):
@@ -819,6 +1211,7 @@ def _worker(args):
     sub.rng = random.Random(seed)
     sub.lean = _WORKER_LEAN[0]
     check_batch(sub, gen_batch(sub.rng, n_trees))
+    check_batch(sub, gen_batch_levels(sub.rng, n_trees // 2))
     return _export(sub)
 
 
@@ -860,10 +1253,11 @@ def _merge(ctx, res):
 
 def run(ctx):
     for c in corpus_cases():
-        check_batch(ctx, [_case_batch(c)])
+        check_case(ctx, c)
         ctx.count('corpus')
     if ctx.quick():
         check_batch(ctx, gen_batch(ctx.rng, 900))
+        check_batch(ctx, gen_batch_levels(ctx.rng, 320))
         return
     _WORKER_LEAN[0] = ctx.lean
     jobs = [(ctx.rng.randrange(1 << 30), 1200, 'thorough') for _ in range(48)]
@@ -886,12 +1280,18 @@ def search(ctx, around=None):
     """Deeper oracle-only hunt (called when the proof or the correspondence broke)."""
     if around is not None:
         spec, kind = around['tree'], around['kind']
-        reqs = [(around['path'], around['method'])]
+        reqs = [_case_req(around)]
         for _ in range(60):
             reqs.append((gen_path(ctx.rng, spec), around['method']))
-        check_batch(ctx, [(spec, kind, reqs, True)], compare_model=False)
+        for _ in range(60):
+            reqs.append(_rich_req(ctx.rng, kind, gen_path_levels(ctx.rng, spec))[:1] + (around['method'],))
+        check_batch(ctx, [(spec, kind, reqs, True, True)], compare_model=False)
         if ctx.oracle_failures:
             return
+    # trees full of dispatchers, judged through what the recording wrappers saw
+    check_batch(ctx, gen_batch_levels(ctx.rng, 600), compare_model=False)
+    if ctx.oracle_failures:
+        return
     # dispatcher-free trees get the full reference resolver
     batch = []
     for i in range(1500):
@@ -904,11 +1304,14 @@ def search(ctx, around=None):
 
 def replay(ctx, case):
     spec, kind = case['tree'], case['kind']
-    built, view, obs, lines, again = run_tree(spec, kind, [(case['path'], case['method'])], True)
-    print('request:', case['method'], case['path'], '(dispatcher %s)' % kind)
+    built, view, obs, lines, again = run_tree(spec, kind, [_case_req(case)], True, not case.get('plain'))
+    print('request:', case['method'], case['path'], '(dispatcher %s)' % kind,
+          'query=%r body=%r' % (case.get('query'), case.get('body')))
     print('impl   :', json.dumps(strip_obs(obs[0])))
     m = ctx.model(lines)
     if m:
         print('model  :', m[0], '->', json.dumps(model_expectation(m[0], view, kind)))
     print('oracle :', oracle(built, case, obs[0]) or 'holds')
-    check_batch(ctx, [_case_batch(case)])
+    if case.get('history'):
+        print('history:', case['history'])
+    check_case(ctx, case)
